@@ -618,8 +618,8 @@ fn flips(inp: &str, outp: &str) {
             "FlipSig" => region_bits(&world.base.es[a - 1], Region::Sig).1,
             _ => continue,
         };
-        // every bit for segments of at most 3 entries; a seeded sample beyond
-        let all = n <= 3;
+        // every bit for segments of at most 3 entries (thorough: of every segment); a seeded sample beyond
+        let all = n <= 3 || thorough;
         let offs: Vec<usize> = if all {
             (0..nbits).collect()
         } else {
